@@ -194,8 +194,11 @@ def run(ctx):
         ctx.guarded(r, AC.check_choice_protocol, kind)
     r = ctx.rule("R2s", "native min/max branch on strict comparisons like the interpreter's choice functions", 14)
     ctx.guarded(r, AC.check_strictness)
-    r = ctx.rule("R2n", "interval choice functions leave a NaN operand undecided before anything else, as the native clauses do", 4)
+    r = ctx.rule("R2n", "interval choice functions leave a NaN operand undecided before anything else, as the native clauses do; `contains` includes both bounds", 5)
     ctx.guarded(r, r_nan_undecided)
+    from . import C03 as C03_
+
+    ctx.guarded(r, C03_.r_contains)
     from .. import asmcopy as AK
 
     r = ctx.rule("R2e", "the tracing assemblers' call helpers restore the choice pointer (rsi) and the flag pointer (rdx) with every live register", 4)
